@@ -3,7 +3,7 @@
 # /repo/xyzpy and the checks are pointed at it with XSIM_REPO (use while something else,
 # e.g. a soak run, is using /repo).  Appends to /verif/seeded/RESULTS.tsv.
 cd /verif || exit 2
-out=/verif/seeded/RESULTS.tsv
+out=${XSIM_SEEDED_OUT:-/verif/seeded/RESULTS.tsv}
 pattern="$1"; props="${2:-C01 C04 C05 C06 C08 C09 C10 C11 C12 C15 C16}"
 for d in /verif/seeded/$pattern; do
   id=$(basename $d)
